@@ -17,7 +17,10 @@ Record ccase := mkCase {
   c_prefix : bool;                   (* the snapshot/restore/replay experiment was run at every prefix *)
   c_snap_eq : list bool;             (* per step k: dump (restore (snapshot state_k)) = dump state_k *)
   c_snap_dumps : list (nat * state); (* the restored dump where it differs *)
-  c_replay_eq : list bool            (* per step k: remaining steps replayed from the restored copy reach the final state *)
+  c_replay_eq : list bool;           (* per step k: remaining steps replayed from the restored copy reach the final state *)
+  c_late_eq : list bool              (* per step k: the Snapshot() object of prefix k persisted only after ALL later steps were
+                                        applied restores to the same state as when persisted at once (Persist is asynchronous
+                                        in raft; the model's snapshot is a value, so the model predicts: always) *)
 }.
 
 Fixpoint list_bool_eqb (a b : list bool) : bool :=
@@ -58,6 +61,7 @@ Definition case_agrees (c : cfg) (cs : ccase) : bool :=
                               | Some r => state_eqb r (snd id)
                               | None => false end) (c_snap_dumps cs)
         && list_bool_eqb (replay_flags c (final_state tr) sts rs (c_steps cs)) (c_replay_eq cs)
+        && forallb (fun b => b) (c_late_eq cs)
       else true).
 
 (* ---- oracles: the property evaluated on the implementation's observations only -------- *)
@@ -87,7 +91,7 @@ Definition batch_atomic_obs (cs : ccase) : bool :=
 
 Definition oracle_c22 (cs : ccase) : bool :=
   has_raw_restore cs ||
-  (c_clean cs && forallb (fun b => b) (c_snap_eq cs) && forallb (fun b => b) (c_replay_eq cs)
+  (c_clean cs && forallb (fun b => b) (c_snap_eq cs) && forallb (fun b => b) (c_replay_eq cs) && forallb (fun b => b) (c_late_eq cs)
    && forallb (fun id => indexes_agree (snd id)) (c_dumps cs) && batch_atomic_obs cs).
 
 (* re-registering an existing node keeps the writer state the cluster recorded for it *)
